@@ -3,5 +3,6 @@ CONSTANTS
   Vary = {"lit", "callee", "mainpos"}
   Fns = {"Println"}
   Shs = {"-"}
+  ScopeAware = FALSE
 INVARIANTS TypeOK Confluent ImportSound Export
 PROPERTIES Stable Terminates
